@@ -992,7 +992,63 @@ def gen_threads(rng, quick: bool) -> dict:  # type: ignore[no-untyped-def]
     return {"family": "threads", "children": ch, "scripts": scripts, "rounds": rounds}
 
 
-FAMILIES = {"direct": (fam_direct, gen_direct), "retry": (fam_retry, gen_retry), "fresh": (fam_fresh, gen_fresh),
+class ReadFault:
+    """while armed, every SELECT on a workflow-data table fails with sqlite3.OperationalError (a busy / damaged database)"""
+
+    def __init__(self) -> None:
+        self.armed = False
+        self.hits = 0
+
+    def install(self) -> "ReadFault":
+        import sqlite3
+        from pynenc.util.sqlite_utils import SQLiteConnection as C
+
+        self._real = C.execute
+        me = self
+
+        def execute(conn, sql, parameters=(), /):  # type: ignore[no-untyped-def]
+            if me.armed and "workflow_data" in sql and sql.lstrip().upper().startswith("SELECT"):
+                me.hits += 1
+                raise sqlite3.OperationalError("disk I/O error")
+            return me._real(conn, sql, parameters)
+
+        C.execute = execute  # type: ignore[method-assign]
+        return self
+
+    def uninstall(self) -> None:
+        from pynenc.util.sqlite_utils import SQLiteConnection as C
+
+        C.execute = self._real  # type: ignore[method-assign]
+
+
+def fam_fault(ctx: Ctx, env: Env, spec: dict) -> None:
+    """plan items: ["top", wi] | ["top-fault", wi]: a re-execution during which the workflow records cannot be READ.  Such an
+    execution fails; it must not take "cannot read" for "nothing recorded" (new values, a second launch, overwritten records)."""
+    env.set_children(spec["children"])
+    for sc in spec["scripts"]:
+        env.new_top(sc)
+    rf = ReadFault().install()
+    try:
+        for item in spec["plan"]:
+            inv = env.tops[item[1]]
+            rf.armed = item[0] == "top-fault"
+            try:
+                run_inline(env, str(inv.invocation_id), f"W{item[1]}", None)
+            finally:
+                rf.armed = False
+    finally:
+        rf.uninstall()
+    env.notes["read_faults_injected"] = rf.hits
+
+
+def spec_fault(rng) -> dict:  # type: ignore[no-untyped-def]
+    ch = gen_children(rng)
+    scripts = [[["s", "k0", ch["k0"]], "t", "r", "t", "u"], gen_script(rng, ch, 2, 5)]
+    plan = [["top", 0], ["top", 1], ["top-fault", 0], ["top-fault", 1], ["top", 0], ["top", 1], ["top-fault", 0], ["top", 0]]
+    return {"family": "fault", "children": ch, "scripts": scripts, "plan": plan}
+
+
+FAMILIES = {"fault": (fam_fault, spec_fault), "direct": (fam_direct, gen_direct), "retry": (fam_retry, gen_retry), "fresh": (fam_fresh, gen_fresh),
             "coop": (fam_coop, gen_coop), "threads": (fam_threads, gen_threads)}
 
 
@@ -1116,9 +1172,75 @@ def generator_across_processes(ctx: Ctx) -> None:
     ctx.notes["generator_across_processes"] = {"workflows": len(wids), "values_per_op": n, "interpreters": len(runs)}
 
 
+def generator_under_interleaving(ctx: Ctx) -> None:
+    """two workflows draw their first random numbers / uuids in two threads of one runner process, interleaved at every source
+    line of `DeterministicExecutor.random` / `.uuid` / `._deterministic_operation` and of the generator closures: the first thread
+    is paused after each of its steps while the second runs to completion, both ways round.  Every value must be the one that
+    workflow gets when it runs alone (the model's g(workflow, op, n): a function of the workflow, not of the neighbours)."""
+    import uuid as _uuid
+
+    from pynenc.identifiers.task_id import TaskId
+    from pynenc.workflow.workflow_deterministic import DeterministicExecutor
+    from pynenc.workflow.workflow_identity import WorkflowIdentity
+
+    from harness.sched_line import LineSched
+    from harness.sched_sql import PrefixChooser
+
+    tid = TaskId("harness.tasks", "wf_script")
+    ids = [WorkflowIdentity.new_workflow(str(_uuid.UUID(int=ctx.rng.getrandbits(128))), tid) for _ in range(2)]
+    n = 2
+    alone = {}
+    for w in ids:
+        ex = DeterministicExecutor(w, make_app("mem", ctx.tmp, f"c18alone{ctx.rng.randrange(10**6)}"))
+        alone[w.workflow_id] = {"random": [ex.random() for _ in range(n)], "uuid": [ex.uuid() for _ in range(n)]}
+    sched = LineSched(line_targets=[DeterministicExecutor.random, DeterministicExecutor.uuid, DeterministicExecutor._deterministic_operation],
+                      max_steps=5000).install()     # (closures defined inside - the generators - are included)
+    bad = None
+    runs = 0
+    try:
+        for op in ("random", "uuid"):
+            def run_one(chooser, op=op):
+                app = make_app("mem", ctx.tmp, f"c18il{ctx.rng.randrange(10**6)}")
+                _ = app.state_backend, app.orchestrator, app.broker, app.client_data_store, app.serializer      # built before the schedule starts
+                got: dict[str, list] = {w.workflow_id: [] for w in ids}
+
+                def body(w):
+                    def f() -> None:
+                        ex = DeterministicExecutor(w, app)
+                        for _ in range(n):
+                            got[w.workflow_id].append(getattr(ex, op)())
+                    return f
+
+                run = sched.run([body(ids[0]), body(ids[1])], chooser)
+                run.meta = got  # type: ignore[attr-defined]
+                return run
+
+            for first in (0, 1):
+                steps = len(run_one(PrefixChooser([first] * 50000)).choices)
+                stride = 1 if steps <= 160 or not ctx.quick else steps // 160 + 1
+                for k in range(0, steps + 1, stride):
+                    run = run_one(PrefixChooser([first] * k + [1 - first] * 50000))
+                    runs += 1
+                    ctx.count()
+                    for w in ids:
+                        if run.meta[w.workflow_id] != alone[w.workflow_id][op] and bad is None:  # type: ignore[attr-defined]
+                            bad = (op, w.workflow_id, run.meta[w.workflow_id], alone[w.workflow_id][op], first, k)  # type: ignore[attr-defined]
+        ctx.distinct(("interleaved-generation", runs > 0))
+    finally:
+        sched.uninstall()
+    if bad:
+        op, w, got, want, first, k = bad
+        ctx.report(f"generated-value-depends-on-neighbour-workflow:{op}",
+                   f"workflow {w} draws {op} values {got} while another workflow draws its own in a second thread (thread {first} paused after {k} source lines, the other run to "
+                   f"completion); alone it draws {want}", {"family": "generator-under-interleaving", "op": op, "workflow": w, "paused_thread": first, "after_steps": k})
+    ctx.obligation("the real generator of random()/uuid() yields g(workflow, op, n) whatever another workflow does between any two of its source lines", bad is None, "" if bad is None else str(bad)[:300])
+    ctx.notes["generator_interleavings"] = runs
+
+
 def run(ctx: Ctx) -> None:
     lean_stage(ctx, None, THEOREMS)
     generator_across_processes(ctx)
+    generator_under_interleaving(ctx)
     clock_ok = P.install_clock()
     ctx.notes["clock_patch"] = clock_ok
     drv = LeanDriver()
@@ -1140,6 +1262,11 @@ def run(ctx: Ctx) -> None:
                     if i == 0:
                         ctx.sample({"family": fam, "backend": backend, "scripts": spec["scripts"],
                                     "plan": spec.get("plan") or spec.get("items") or spec.get("rounds") or spec.get("fail_after")})
+        # a re-execution that cannot read the workflow records (SQLite read fault): oracle only
+        for _ in range(2 if q else 10):
+            sp = spec_fault(ctx.rng)
+            run_scenario(ctx, None, None, "sqlite", sp)
+            ctx.distinct(("fault", "sqlite", shape(sp)))
         # out of the property's quantifier: replayed, compared with the model, recorded — never reported
         outq: dict[str, Any] = {}
         for backend in ("mem", "sqlite"):
